@@ -17,7 +17,7 @@ ASSUMPTIONS = [
     "trusted: clang 14 + ASan/UBSan, rapidcheck, OpenSSL 3.0 HMAC, Crypto++ (start-up self-test only)",
 ]
 SUBS = [
-    dict(name="drbg", fork=True, quick=dict(cases=300, shards=13), thorough=dict(cases=3000, shards=13)),
+    dict(name="drbg", fork=True, quick=dict(cases=300, shards=13), thorough=dict(cases=2500, shards=13)),
     dict(name="osread", quick=dict(cases=200000, shards=3), thorough=dict(cases=2000000, shards=3)),
 ]
 
